@@ -9,7 +9,7 @@
 From Coq Require Import List Arith ZArith Bool.
 From MomoCommon Require GenPrelude.
 From C05 Require Import ArrayShift ArrayModel ShiftProofs FilterProofs ArrayProofs SegProofs.
-From C05 Require GrowProofs Gen_Grow.
+From C05 Require GrowProofs Gen_Grow GuardProofs Gen_GuardsShifter Gen_GuardsArray Gen_GuardsSeg.
 Import ListNotations.
 
 (* ArrayShifter::InsertNogrow(array, index, count, const Item& item): for EVERY array contents l (elements may even be
@@ -382,3 +382,72 @@ Theorem C05_history_nonvacuous :
   spec_ops nat (fun _ => None) true true (map Some [1;2;3]) (firstn 14 os) = Some (map Some [5;4;4;2;3;7]).
 Proof. exact ArrayProofs.bounded_example. Qed.
 Print Assumptions C05_history_nonvacuous.
+
+(* ================= the range checks of the real functions, GENERATED by cxx2coq with 64-bit wrap-around arithmetic ================= *)
+(* ArrayShifter::Remove(array, index, count) [bcbf078]: for EVERY 64-bit index and count (incl. SIZE_MAX) the first statements accept
+   the call iff index + count <= GetCount() in unbounded arithmetic; otherwise the MOMO_CHECK fails before anything is touched *)
+Theorem C05_remove_guard_exact :
+  forall cnt : Z, GuardProofs.u64 cnt -> forall index count : Z, GuardProofs.u64 index -> GuardProofs.u64 count ->
+    ((index + count <= cnt)%Z -> Gen_GuardsShifter.Remove_guard cnt index count = GenPrelude.Ok cnt) /\
+    ((cnt < index + count)%Z -> Gen_GuardsShifter.Remove_guard cnt index count = GenPrelude.Stuck).
+Proof. exact GuardProofs.remove_guard_exact. Qed.
+Print Assumptions C05_remove_guard_exact.
+
+(* ArrayShifter::InsertNogrow(array, index, count, item) [c5d1be1]: accepted iff index <= count and count + n <= capacity (no wrap) *)
+Theorem C05_insert_nogrow_guard_spec :
+  forall cnt capa : Z, GuardProofs.u64 cnt -> GuardProofs.u64 capa -> (cnt <= capa)%Z ->
+  forall index count : Z, GuardProofs.u64 index -> GuardProofs.u64 count ->
+    Gen_GuardsShifter.InsertNogrow_guard cnt capa index count =
+      (if (index <=? cnt)%Z && (cnt + count <=? capa)%Z then GenPrelude.Ok cnt else GenPrelude.Stuck).
+Proof. exact GuardProofs.insert_nogrow_guard_spec. Qed.
+Print Assumptions C05_insert_nogrow_guard_spec.
+
+(* Array::Insert(index, count, item) [c5d1be1] composed with InsertNogrow: a count with GetCount() + count > SIZE_MAX throws before
+   anything else; otherwise newCount does not wrap, growth is requested iff newCount > capacity, the capacity chosen by the GENERATED
+   GrowCapacity is >= newCount, and the assertions of InsertNogrow reduce to index <= GetCount() (the capacity MOMO_ASSERT never fires) *)
+Theorem C05_array_insert_guards_compose :
+  forall cnt capa : Z, GuardProofs.u64 cnt -> GuardProofs.u64 capa -> (cnt <= capa)%Z ->
+  forall (index count : Z) (growOnReserve : bool), GuardProofs.u64 index -> GuardProofs.u64 count ->
+    ((GuardProofs.U - 1 < cnt + count)%Z -> Gen_GuardsArray.Insert_prefix cnt capa index count = GenPrelude.Exn) /\
+    ((cnt + count <= GuardProofs.U - 1)%Z ->
+       exists newCap, Gen_GuardsArray.Insert_prefix cnt capa index count =
+                        GenPrelude.Ok ((cnt + count)%Z, if (capa <? cnt + count)%Z then 1%Z else 0%Z) /\
+         (if (capa <? cnt + count)%Z
+          then exists r, Gen_Grow.GrowCapacity growOnReserve capa (cnt + count) 0 false = GenPrelude.Ok r /\ newCap = r
+          else newCap = capa) /\
+         (cnt + count <= newCap)%Z /\
+         Gen_GuardsShifter.InsertNogrow_guard cnt newCap index count = (if (index <=? cnt)%Z then GenPrelude.Ok cnt else GenPrelude.Stuck)).
+Proof. exact GuardProofs.array_insert_guards_compose. Qed.
+Print Assumptions C05_array_insert_guards_compose.
+
+(* SegmentedArray::Insert(index, count, item) [c5d1be1]: throws length_error iff mCount + count > SIZE_MAX *)
+Theorem C05_seg_insert_guard_spec :
+  forall cnt : Z, GuardProofs.u64 cnt -> forall index count : Z, GuardProofs.u64 count ->
+    Gen_GuardsSeg.SegInsert_guard cnt index count =
+      (if (GuardProofs.U - 1 <? cnt + count)%Z then GenPrelude.Exn else GenPrelude.Ok count).
+Proof. exact GuardProofs.seg_insert_guard_spec. Qed.
+Print Assumptions C05_seg_insert_guard_spec.
+
+(* the checks of the hand model (ArrayShift.v, on nat: remove_range, insert_nogrow_gen, remove_back, add_back_ctor, item_at) accept
+   exactly what the GENERATED checks of the real code accept, for all values below 2^64: the model's Err EIndex / ECap = the real rejection *)
+Theorem C05_model_checks_are_the_real_checks :
+  forall n cap_ i c : nat,
+    GuardProofs.u64 (Z.of_nat n) -> GuardProofs.u64 (Z.of_nat cap_) -> GuardProofs.u64 (Z.of_nat i) -> GuardProofs.u64 (Z.of_nat c) -> n <= cap_ ->
+    (Gen_GuardsShifter.Remove_guard (Z.of_nat n) (Z.of_nat i) (Z.of_nat c) = GenPrelude.Ok (Z.of_nat n) <-> (i + c <=? n) = true) /\
+    (Gen_GuardsShifter.InsertNogrow_guard (Z.of_nat n) (Z.of_nat cap_) (Z.of_nat i) (Z.of_nat c) = GenPrelude.Ok (Z.of_nat n) <->
+       ((i <=? n) && (n + c <=? cap_) = true)) /\
+    (Gen_GuardsArray.RemoveBack_guard (Z.of_nat n) (Z.of_nat c) = GenPrelude.Ok (Z.of_nat c) <-> (c <=? n) = true) /\
+    (Gen_GuardsArray.AddBackNogrowCrt_guard (Z.of_nat n) (Z.of_nat cap_) = GenPrelude.Ok tt <-> (n <? cap_) = true) /\
+    (Gen_GuardsArray.index_guard (Z.of_nat n) (Z.of_nat i) = GenPrelude.Ok (Z.of_nat i) <-> (i <? n) = true).
+Proof. exact GuardProofs.model_checks_are_the_real_checks. Qed.
+Print Assumptions C05_model_checks_are_the_real_checks.
+
+(* non-vacuity / the mutants: the guards as they were before bcbf078 and c5d1be1 accepted Remove(3, SIZE_MAX) on 4 items and computed
+   newCount = 4, grow = false for Insert(0, SIZE_MAX, x) on 5 items with capacity 8; the current generated guards reject both *)
+Theorem C05_overflow_guards_refuted :
+  GuardProofs.Remove_guard_before_bcbf078 4 3 (2 ^ 64 - 1) = GenPrelude.Ok 4%Z /\
+  Gen_GuardsShifter.Remove_guard 4 3 (2 ^ 64 - 1) = GenPrelude.Stuck /\
+  GuardProofs.Insert_prefix_before_c5d1be1 5 8 (2 ^ 64 - 1) = GenPrelude.Ok (4%Z, 0%Z) /\
+  Gen_GuardsArray.Insert_prefix 5 8 0 (2 ^ 64 - 1) = GenPrelude.Exn.
+Proof. exact GuardProofs.overflow_guards_refuted. Qed.
+Print Assumptions C05_overflow_guards_refuted.
